@@ -42,6 +42,26 @@ DESTS = {False: ("mem", "file", "wfile", "linefile"), True: ("mem", "file", "wfi
 VOLUMES = [(1, 4097), (8, 4096), (8, 4097), (3, 8193), (5, 20000), (8, 70000)]
 
 
+# history of a destination PATH: what the path holds when the measured write starts. Absent = a fresh path (no such file); else
+# (who put it there, how much): "written" = an earlier file of the same file class, of m elements, was written to the path through
+# the framework (successfully); "foreign" = m bytes the caller stored there. A write replaces the file: what the path held before
+# is no part of "what was already written". The amounts are taken in rotation: more than / less than the new output
+PRIORS = ("written_more", "foreign_more", "written_less", "foreign_same")
+
+
+def prior_of(kind, case):
+    """the (who, amount) history of the given kind for the case"""
+    n = len(case["behs"])
+    full = sum(len(b[1]) for b in case["behs"] if not b[0])
+    return {"written_more": ["written", n + 3], "written_less": ["written", 1],
+            "foreign_more": ["foreign", full + 37], "foreign_same": ["foreign", max(1, full)]}[kind]
+
+
+def prior_behs(m):
+    """what the m elements of the earlier file wrote"""
+    return [[False, "P%d%s\n" % (j, "w" * (1 + j % 4))] for j in range(m)]
+
+
 def volume_of(case):
     """characters/bytes the non-failing elements of the case read or write together"""
     return sum((b[1] if case["read"] else len(b[1])) for b in case["behs"] if not b[0])
@@ -156,6 +176,9 @@ class CHECK(Check):
             "content - (elements, total size) in {(1, 4097), (8, 4096), (8, 4097), (3, 8193), (5, 20000), (8, 70000)} and one drawn "
             "pair (sizes at, one past and several times a 4 KiB page, the 8 KiB io buffer, 64 KiB) - with no fault and a fault in "
             "the first / last element (writes: up to 20 kB, the kinds of caller destination taken in rotation). "
+            "every write to a path is made to a fresh path and also to a path with a history - one per case, in rotation: an earlier "
+            "file of the same file class with n+3 elements / with 1 element was written there through the framework, or the caller "
+            "stored bytes there (37 more than / as many as the new output) - what the path held before is no part of the output. "
             "builtins.open and the adapter's StringIO/BytesIO are wrapped to record every handle the framework opens and its "
             "closed flag after the call; observed: identity of the exception at the call site, handles opened/closed, "
             "buffer.closed (inside the caller's except block, on return, and again after the caller has dropped the exception and the "
@@ -166,6 +189,7 @@ class CHECK(Check):
 
     def gen(self, tier, rng):
         ns = (1, 2, 3, 5, 8) if tier == "quick" else range(1, 9)
+        turn_p = rng.randrange(4)
         for fam in families.FAMILIES:
             for binary in (False, True):
                 for is_read in (False, True):
@@ -190,6 +214,11 @@ class CHECK(Check):
                                             yield dict(case, dest=dest)
                                     else:
                                         yield case
+                                        if not is_read:
+                                            # ... and the same write to a path that already holds something (one history per
+                                            # case, the kinds taken in rotation)
+                                            turn_p += 1
+                                            yield dict(case, prior=prior_of(PRIORS[turn_p % 4], case))
         # volume: the same arrangements with kilobytes of content (a handful per arrangement, not an enumeration): no fault, a
         # fault in the first and in the last element
         for fam in families.FAMILIES:
@@ -220,6 +249,9 @@ class CHECK(Check):
                                     yield dict(case, dest=DESTS[binary][turn % 4])
                                 else:
                                     yield case
+                                    if not is_read and not buf:
+                                        turn_p += 1
+                                        yield dict(case, prior=prior_of(PRIORS[turn_p % 4], case))
 
     def impl(self, case):
         # the objects of this case are the only thing the collection in _impl has to look at (a full collection costs ~9 ms otherwise)
@@ -233,7 +265,9 @@ class CHECK(Check):
         fam, binary = case["fam"], case["binary"]
         F = families.get(fam)
         excs = [t("injected %d" % i) for i, t in enumerate(EXC_TYPES)] + [t() for t in EXC_TYPES]   # with and without arguments
-        K, state = make_elements(fam, binary, case["behs"], excs, "r" if case["read"] else "w")
+        prior = case.get("prior") if not case["read"] and not case["buffer"] else None
+        before = prior_behs(prior[1]) if prior and prior[0] == "written" else []
+        K, state = make_elements(fam, binary, before + case["behs"], excs, "r" if case["read"] else "w")
         n = len(case["behs"])
         attr = F["list_attr"]
         ns = {"STORAGE": "BINARY" if binary else "TEXT", "__slots__": [], attr: [K] * (n if fam == "section" else 1)}
@@ -269,14 +303,23 @@ class CHECK(Check):
                 out["fw_opened"] = len(rec.handles)
                 out["fw_closed"] = sum(1 for h in rec.handles if h.closed)
             else:
-                data = F["Data"](F["Default"](data="") if fam == "register" else K())
-                if fam != "register":
-                    # the container's first element is the first behaviour
-                    for _ in range(n - 1):
+                def container(m):
+                    data = F["Data"](F["Default"](data="") if fam == "register" else K())
+                    # (block / section: the container's first element is the first behaviour)
+                    for _ in range(m if fam == "register" else m - 1):
                         data.append(K())
-                else:
-                    for _ in range(n):
-                        data.append(K())
+                    return data
+
+                if prior and prior[0] == "written":
+                    # the history of the path: an earlier file of the same kind, written there through the framework
+                    m = len(before)
+                    FC0 = type("V17File", (F["File"],), dict(ns, **{attr: [K] * (m if fam == "section" else 1)}))
+                    FC0(container(m)).write(path)
+                    state["i"] = m          # the measured file's elements perform the behaviours of the case
+                elif prior:
+                    with open(path, "wb") as fh:
+                        fh.write((b"#previous content\n" * (prior[1] // 18 + 1))[:prior[1]])
+                data = container(n)
                 f = FC(data)
                 buf = dest = None
                 if case["buffer"]:
@@ -360,6 +403,8 @@ class CHECK(Check):
                 if obs["buf_pos"] != len(exp_out):
                     return "caller buffer is not positioned at the end of the written data"
             if obs.get("output") != exp_out:
+                if case.get("prior") and not case["buffer"] and k is None:
+                    return "the file at the destination path is not exactly the output of the elements (the path held earlier content)"
                 return "partial output is not exactly the output of the elements before the failing one"
         return None
 
@@ -373,6 +418,11 @@ class CHECK(Check):
              "fault_at_%s" % ("none" if k is None else k): 1}
         if case["buffer"] and not case["read"]:
             d["caller_dest_" + case.get("dest", "by_parity")] = 1
+        if not case["buffer"] and not case["read"]:
+            pr = case.get("prior")
+            full = sum(len(b[1]) for b in case["behs"] if not b[0])
+            d["dest_path_" + ("fresh" if not pr else "holds_earlier_%s_file" % ("longer" if pr[1] > len(case["behs"]) else "shorter")
+                              if pr[0] == "written" else "holds_foreign_bytes_%s" % ("more" if pr[1] > full else "as_many_or_fewer"))] = 1
         v = volume_of(case)
         d["volume_" + ("lt_1KiB" if v < 1024 else "1KiB_to_4KiB" if v <= 4096 else "4KiB_to_8KiB" if v <= 8192
                        else "8KiB_to_64KiB" if v <= 65536 else "gt_64KiB")] = 1
@@ -390,6 +440,12 @@ class CHECK(Check):
                     c = dict(case)
                     c["behs"] = behs[:i] + behs[i + 1:]
                     yield c
+        # less history at the destination path
+        pr = case.get("prior")
+        if pr and not case["buffer"] and not case["read"]:
+            for m in (1, pr[1] // 2, pr[1] - 1):
+                if 1 <= m < pr[1]:
+                    yield dict(case, prior=[pr[0], m])
         # less volume: every element three quarters / one less of what it moved
         if volume_of(case) > 64:
             for f in (lambda m: m * 3 // 4, lambda m: m - 1):
